@@ -289,7 +289,7 @@ func (m *Mem) Read(keys []*Term) *Term {
 			cur = cur.prev
 			continue
 		case MHavocFresh:
-			if regionMask(keys[0])&(1<<15) == 0 {
+			if regionMask(keys[0])&(1<<15) == 0 || (isPreRegion(keys[0]) && havocFreshIsCallOnly(cur)) {
 				cur = cur.prev
 				continue
 			}
@@ -570,7 +570,7 @@ func effectiveMem(m *Mem, r *Term) *Mem {
 		case MCopy, MFill, MHavoc:
 			nr = m.region
 		case MHavocFresh:
-			if regionMask(r)&(1<<15) == 0 {
+			if regionMask(r)&(1<<15) == 0 || (isPreRegion(r) && havocFreshIsCallOnly(m)) {
 				m = m.prev
 				continue
 			}
@@ -610,5 +610,70 @@ func regionCannotBe(nr, r *Term) bool {
 	if nr.op == "ite" && iteDepth(nr) <= 3 {
 		return regionCannotBe(nr.args[1], r) && regionCannotBe(nr.args[2], r)
 	}
+	// nil (no cells) or allocated during the call: never a region of the pre-state
+	if callAllocOrNil(nr) && isPreRegion(r) {
+		return true
+	}
 	return EqOff(nr, r) == False
 }
+
+// effectiveMemPre: the version of a memory as far as pre-existing (pre-state) regions are
+// concerned: nodes that write only freshly allocated regions (or nil) are skipped.
+func effectiveMemPre(m *Mem) *Mem {
+	for m != nil {
+		var nr *Term
+		switch m.kind {
+		case MWrite:
+			if len(m.keys) == 2 {
+				nr = m.keys[0]
+			}
+		case MCopy, MFill, MHavoc:
+			nr = m.region
+		case MHavocFresh:
+			m = m.prev
+			continue
+		case MMerge:
+			if ea, eb := effectiveMemPre(m.a), effectiveMemPre(m.b); ea == eb && ea != nil {
+				m = ea
+				continue
+			}
+		}
+		if nr != nil && freshOrNil(nr) {
+			m = m.prev
+			continue
+		}
+		break
+	}
+	return m
+}
+
+func freshOrNil(r *Term) bool {
+	if r.IsConst() && r.val.Sign() == 0 {
+		return true
+	}
+	if r.op == "ite" && iteDepth(r) <= 3 {
+		return freshOrNil(r.args[1]) && freshOrNil(r.args[2])
+	}
+	return regionMask(r)&^(1<<15) == 0
+}
+
+// havocFreshIsCallOnly: the node havocs only regions allocated during the verified call.
+func havocFreshIsCallOnly(m *Mem) bool {
+	return m.lo != nil && m.lo.IsConst() && m.lo.val.Uint64()&0x0FFFFFFFFFFFFFFF >= callAllocBase
+}
+
+// callAllocOrNil: the region term is syntactically nil or an allocation of the verified call.
+func callAllocOrNil(t *Term) bool {
+	switch t.op {
+	case "const":
+		return t.val.Sign() == 0 || isCallAlloc(t)
+	case "ite":
+		return callAllocOrNil(t.args[1]) && callAllocOrNil(t.args[2])
+	case "var":
+		return callAllocVars[t.id]
+	}
+	return false
+}
+
+// callAllocVars: region variables assumed (and checked inductively) to be nil or call-allocated.
+var callAllocVars = map[int]bool{}
